@@ -363,6 +363,8 @@ def rust_round(x):
 # ======================================================================================
 
 PRIMES_SMALL = [3, 5, 7, 11, 13, 101, 257, 65537, 1000003]
+# primes of [2^62, 2^63): 2^63 - 25, 3*2^61 + 9, 2^62 + 2^59 + .., the first prime above 2^62
+P63_EDGE = [9223372036854775783, 8070450532247928827, 6917529027641081737, 5188146770730811387, 4611686018427388039]
 _P62 = []
 _P61 = []
 
@@ -597,6 +599,23 @@ def echelon_cases(rng, N):
             M = [[x * p + rng.choice([0, 0, 1]) for x in r] for r in rand_matrix(rng, m, n, "tiny")] if p < 1 << 20 else M
         op = "im_echelon" if rng.randrange(3) else "im_detp"
         yield Case(f"{op} {p} {enc(M)}")
+    # moduli in [2^62, 2^63) with at least 10 rows: `add` must not take the 8-row block path there (the sum of 8 products
+    # leaves the range mg_redc + one subtraction can reduce; fixed in a30f559), below 2^62 it must
+    for p in P63_EDGE:
+        for n in (10, 12, 17, 24):
+            M = rand_matrix(rng, n + rng.choice([0, 0, 1]), n, rng.choice(["huge", "mixed", "medium"]))
+            yield Case(f"{rng.choice(['im_echelon', 'im_detp'])} {p} {enc(M)}", tag="p63")
+    # one `add` on a builder state given word by word: the panic sites of `add` that no sequence of `add` calls reaches
+    # (the slice indices[i..i+8] of the block path, position(..).unwrap(), indices.swap beyond the end), and a regular state
+    z12 = ";".join(",".join("1" if c == r else "0" for c in range(12)) for r in range(10))
+    yield Case(f"im_ech_raw 101 0,1,2,3,4 {z12} 1,1,1,1,1,1,1,1,1,1 1,1,1,1,1,1,1,1,1,1,1,1", o=False)
+    yield Case(f"im_ech_raw 101 0,1,2,3,4,5,6,7,8 {z12} 1,1,1,1,1,1,1,1,1,1 1,1,1,1,1,1,1,1,1,1,1,1", o=False)
+    yield Case(f"im_ech_raw 101 0,1,2,3,4,5,6,7,8,9,10,11 {z12} 1,1,1,1,1,1,1,1,1,1 1,1,1,1,1,1,1,1,1,1,1,1", o=False)
+    yield Case("im_ech_raw 101 0,0,0 0,0,0 1 0,1,0", o=False)
+    yield Case("im_ech_raw 101 0,1,2 0,0,0;0,0,0;0,0,0 1,1,1 1,0,0", o=False)
+    yield Case("im_ech_raw 101 0,1,2 1,0,0 5 3,4,1", o=False)
+    yield Case("im_ech_raw 101 0,1 - - 3,4", o=False)
+    yield Case("im_ech_raw 101 0,1,2 1,0,0 5 3,4", o=False)
     # composite modulus / shapes outside the domain: K only
     yield Case("im_echelon 15 3,1;1,2", o=False)
     yield Case("im_echelon 15 1,1;1,2", o=False)
@@ -1239,6 +1258,61 @@ KER_NORMS = [0, 255, 256, 1023, 1024]
 LATTICE_H_BITS = [64, 65, 100, 119, 120, 124, 125]
 
 
+def ldu(rng, n, diag, ops, maxabs=(1 << 63) - 1):
+    """L·D·U with unit triangular L, U of small entries (then a few elementary operations): det = prod(diag) exactly"""
+    L = [[(1 if i == j else rng.choice([-2, -1, 0, 1, 1, 2]) if j < i else 0) for j in range(n)] for i in range(n)]
+    U = [[(1 if i == j else rng.choice([-2, -1, 0, 1, 1, 2]) if j > i else 0) for j in range(n)] for i in range(n)]
+    M = [[sum(L[i][k] * diag[k] * U[k][j] for k in range(n)) for j in range(n)] for i in range(n)]
+    if max(abs(x) for r in M for x in r) > maxabs:
+        M = [[diag[i] if i == j else 0 for j in range(n)] for i in range(n)]
+    return unimodular_ops(rng, M, ops, maxabs)
+
+
+def crtprime_cases(rng, tier):
+    """determinants divisible by the deterministic CRT primes that det_matz (62 bits) and CRTDetBuilder::det (61 bits) walk:
+    the matrix is singular modulo one of the moduli, the residue 0 must be recorded for that modulus (`modp.push(0)`),
+    otherwise residues and moduli fall out of step. Both signs, one prime, two primes, a square, small cofactors."""
+    P62, P61 = p62(24), p61(24)
+    for n in (3, 4, 5, 6):
+        for i in range(4 if tier == "quick" else 8):
+            for kind in ("p", "-p", "2p", "pq", "-pq", "pp", "3pq", "late"):
+                for which, P in (("matz", P62), ("crtdet", P61)):
+                    p_, q_ = P[i], P[(i + 1 + n) % 6]
+                    small = rng.choice([1, 1, 2, 3, 5, 7, 12])
+                    diag = [1] * n
+                    if kind in ("p", "-p", "2p"):
+                        diag[rng.randrange(n)] = {"p": p_, "-p": -p_, "2p": 2 * p_}[kind]
+                    elif kind == "late":
+                        # the second modulus of a two-modulus run divides the determinant: small cofactor
+                        diag[rng.randrange(n)] = P[1]
+                    else:
+                        a, b = rng.sample(range(n), 2)
+                        diag[a] = -p_ if kind == "-pq" else p_
+                        diag[b] = p_ if kind == "pp" else q_
+                        if kind == "3pq":
+                            diag[[c for c in range(n) if c not in (a, b)][0]] = 3
+                    if kind in ("p", "-p", "pq", "-pq", "pp") and small > 1:
+                        c = [c for c in range(n) if abs(diag[c]) == 1]
+                        if c:
+                            diag[c[0]] = small
+                    M = ldu(rng, n, diag, rng.randrange(0, 2 * n))
+                    d = bareiss(M)
+                    assert abs(d) == abs(math.prod(diag)), (d, diag)
+                    if which == "matz":
+                        yield Case(det_request(M, d)[0], k=True, tag=str(d))
+                    else:
+                        e = log2int(d)
+                        yield Case(f"im_crtdet {enc(M[:-1])} {enc([M[-1]])} {f64bits(e)} {rust_round(e)}", k=True, tag=str(d))
+    # at least 18 moduli (|det| about 2^1100): with the residues out of step the closing f64 comparison cannot tell any more
+    for n, cnt in ((20, 18), (24, 20)):
+        diag = [1] * n
+        for j in range(cnt):
+            diag[j] = P62[j] if j % 2 == 0 else -P62[j]
+        M = ldu(rng, n, diag, 0)
+        d = bareiss(M)
+        yield Case(det_request(M, d)[0], k=False, tag=str(d), timeout=60)
+
+
 def boundary_cases(rng, tier):
     reps = 1 if tier == "quick" else 4
     for rep in range(reps):
@@ -1292,7 +1366,8 @@ def cases(tier, rng, extended=False):
     selftest(rng)
     bmrng = _fork(rng, "C19-bm")
     wrng = _fork(rng, "C19-wied")
-    for c in itertools.chain(boundary_cases(brng, tier), bm.cases(tier, bmrng, extended), wied.cases(tier, wrng, extended),
+    cprng = _fork(rng, "C19-crtprime")
+    for c in itertools.chain(crtprime_cases(cprng, tier), boundary_cases(brng, tier), bm.cases(tier, bmrng, extended), wied.cases(tier, wrng, extended),
                              _all_cases(tier, rng, extended)):
         # the Wiedemann pipeline is modelled (Ymq/Model/Wiedemann.lean): K on for its ops up to a dimension the list-based model handles fast
         if c.op in wied.K_OPS and not c.k and c.o and c.profiles is None and c.args and c.args[0].count(";") < WIED_K_MAX_DIM:
